@@ -59,14 +59,13 @@ func (r *BufferReader) Seek(offset int64, whence int) (int64, error) {
 }
 
 func (r *BufferReader) Skip(n int) error {
-	newPos := r.pos + n
-	if newPos < 0 {
-		return errors.New("encoding.BufferReader.Skip: negative position")
+	if n < 0 {
+		return errors.New("encoding.BufferReader.Skip: backward skipping is not allowed")
 	}
-	if newPos > len(r.buf) {
+	if n > len(r.buf)-r.pos {
 		return errors.New("encoding.BufferReader.Skip: position out of range")
 	}
-	r.pos = newPos
+	r.pos += n
 	return nil
 }
 
@@ -74,7 +73,7 @@ func (r *BufferReader) ReadWire(l int) (Wire, error) {
 	if r.pos >= len(r.buf) && l > 0 {
 		return nil, io.EOF
 	}
-	if r.pos+l > len(r.buf) {
+	if l < 0 || l > len(r.buf)-r.pos {
 		return nil, io.ErrUnexpectedEOF
 	}
 	p := r.pos
@@ -83,7 +82,7 @@ func (r *BufferReader) ReadWire(l int) (Wire, error) {
 }
 
 func (r *BufferReader) ReadBuf(l int) (Buffer, error) {
-	if r.pos+l > len(r.buf) {
+	if l < 0 || l > len(r.buf)-r.pos {
 		return nil, io.ErrUnexpectedEOF
 	}
 	p := r.pos
@@ -107,7 +106,7 @@ func (r *BufferReader) Range(start, end int) Wire {
 }
 
 func (r *BufferReader) Delegate(l int) ParseReader {
-	if l < 0 || r.pos+l > len(r.buf) {
+	if l < 0 || l > len(r.buf)-r.pos {
 		return NewBufferReader([]byte{})
 	}
 	subBuf := r.buf[r.pos : r.pos+l]
@@ -132,16 +131,28 @@ type WireReader struct {
 }
 
 func (r *WireReader) nextSeg() bool {
-	if r.seg < len(r.wire) && r.pos >= len(r.wire[r.seg]) {
+	// skip over exhausted and empty segments
+	for r.seg < len(r.wire) && r.pos >= len(r.wire[r.seg]) {
 		r.seg++
 		r.pos = 0
 	}
 	return r.seg < len(r.wire)
 }
 
+// remaining returns the number of unread bytes.
+func (r *WireReader) remaining() int {
+	if r.seg >= len(r.wire) {
+		return 0
+	}
+	return r.accSz[len(r.wire)] - r.accSz[r.seg] - r.pos
+}
+
 func (r *WireReader) Read(b []byte) (int, error) {
-	if !r.nextSeg() && len(b) > 0 {
-		return 0, io.EOF
+	if !r.nextSeg() {
+		if len(b) > 0 {
+			return 0, io.EOF
+		}
+		return 0, nil
 	}
 	n := copy(b, r.wire[r.seg][r.pos:])
 	r.pos += n
@@ -173,6 +184,9 @@ func (r *WireReader) ReadWire(l int) (Wire, error) {
 	if !r.nextSeg() && l > 0 {
 		return nil, io.EOF
 	}
+	if l < 0 || l > r.remaining() {
+		return nil, io.ErrUnexpectedEOF
+	}
 	ret := make(Wire, 0, len(r.wire)-r.seg)
 	for l > 0 {
 		if r.seg >= len(r.wire) {
@@ -193,8 +207,11 @@ func (r *WireReader) ReadWire(l int) (Wire, error) {
 }
 
 func (r *WireReader) ReadBuf(l int) (Buffer, error) {
-	if !r.nextSeg() && l > 0 {
+	if l < 0 || l > r.remaining() {
 		return nil, io.ErrUnexpectedEOF
+	}
+	if !r.nextSeg() || l == 0 {
+		return Buffer{}, nil
 	}
 	if r.pos+l <= len(r.wire[r.seg]) {
 		p := r.pos
@@ -236,6 +253,9 @@ func (r *WireReader) Range(start, end int) Wire {
 	if start < 0 || end > r.accSz[len(r.wire)] || start > end {
 		return nil
 	}
+	if start == end {
+		return Wire{Buffer{}}
+	}
 	var startSeg, startPos, endSeg, endPos int
 	for i := 0; i < len(r.wire); i++ {
 		if r.accSz[i] <= start && r.accSz[i+1] > start {
@@ -264,6 +284,14 @@ func (r *WireReader) Skip(n int) error {
 	if n < 0 {
 		return errors.New("encoding.WireReader.Skip: backword skipping is not allowed")
 	}
+	if n > r.remaining() {
+		r.seg = len(r.wire)
+		r.pos = 0
+		return io.EOF
+	}
+	if n == 0 {
+		return nil
+	}
 	r.pos += n
 	for r.pos > len(r.wire[r.seg]) {
 		r.pos -= len(r.wire[r.seg])
@@ -276,7 +304,7 @@ func (r *WireReader) Skip(n int) error {
 }
 
 func (r *WireReader) Delegate(l int) ParseReader {
-	if l < 0 || r.seg >= len(r.wire) {
+	if l < 0 || r.seg >= len(r.wire) || l > r.remaining() {
 		return NewBufferReader([]byte{})
 	}
 	if r.pos+l <= len(r.wire[r.seg]) {
